@@ -40,7 +40,11 @@ def _alloc_fail(ex, st, th, what='_ZTISt9bad_alloc'):
 
 @model('_Znwm', '_Znam')
 def op_new(ex, st, th, a):
-    o = ex.malloc(st, a[0], 'heap', 'new')
+    site = 'new'
+    if ex.alloc_sites:
+        fr = [f.fn.name for f in th.frames[-8:] if 'Vector' in f.fn.name or f.fn.name.startswith('@h_')]
+        site = 'new@' + (fr[-1] if fr else '?')
+    o = ex.malloc(st, a[0], 'heap', site)
     if o is None:
         return _alloc_fail(ex, st, th)
     return o.base
